@@ -45,7 +45,7 @@ PROPS = {
                      "Grol.Map.rest_spec", "Grol.Map.range_spec", "Grol.Map.sorted_insert", "Grol.Map.lookup_insert", "Grol.Map.lookup_erase",
                      "Grol.Map.insert_comm", "Grol.Obj.cmpD_PW"],
         "suites": ["mapops"],
-        "rule": "mapops suite: every case is a whole history (literal construction, m[k]=v, del(m[k]), m+{..}, m=rest(m), m=m[lo:hi]) run "
+        "rule": "[4th session: in both modes the OPERAND of every rest / range / + is kept and must be unchanged after every later operation on the result.] mapops suite: every case is a whole history (literal construction, m[k]=v, del(m[k]), m+{..}, m=rest(m), m=m[lo:hi]) run "
                 "twice, through the object.Map API (mode A) and as grol source statements (mode S); observation after the last operation: "
                 "len, representation (SmallMap/*BigMap), the stored pairs in order, lookup of every universe key, Inspect(), first(), and == "
                 "both ways against the map rebuilt from the pairs in reverse order. Families: all ordered selections of <=3 of 7 mixed-type "
@@ -213,7 +213,7 @@ PROPS = {
                      "Grol.Generated.IOFacts.C18.autosave_call_order", "Grol.Generated.IOFacts.C18.autosave_file_sites",
                      "Grol.Generated.IOFacts.C18.saveglobals_writes"],
         "suites": ["autosave"],
-        "rule": "autosave suite: a child process (re-exec of the harness, real extensions.Init + eval + repl.AutoSave, cwd = a scratch directory under work/) "
+        "rule": "[4th session: plus a state with 1-4 KiB values in which every write index (up to 8 beyond the number of bindings) fails once, with 0 and 5 bytes kept.] autosave suite: a child process (re-exec of the harness, real extensions.Init + eval + repl.AutoSave, cwd = a scratch directory under work/) "
                 "is SIGKILLed by the verif crash-point hook at before-create, after-create, after each binding written by SaveGlobals, before-rename, "
                 "after-rename, or has its n-th write fail (with 0 or a random number of bytes of the line kept), for old states {no file, 1, 5, 50 bindings} "
                 "x new states {0 (nothing changed), 1, 5, 50 bindings, set+delete (changed, no binding of its own)}; values are random ints, strings, arrays, "
